@@ -113,7 +113,7 @@ REGISTRY["C16"] = dict(
     technique="CrossHair symbolic atom codes composing the input string / the expression tree, executed on the real parser, plugins, field types and searcher",
     text="Totality: every string of 3 atoms from a grammar-aware alphabet (thorough: 45 atoms, and 4 atoms over a 14-atom "
          "core) through 10 parser configurations returns a query or raises QueryParserError, and searching it raises at most QueryError.  "
-         "Meaning: generated expressions [NOT] o1 c1 [NOT] o2 [c2 [NOT] o3] with optional parentheses over 39 operand kinds select "
+         "Meaning: generated expressions [NOT] o1 c1 [NOT] o2 [c2 [NOT] o3] with optional parentheses over 41 operand kinds select "
          "exactly the documents of the documented reading (NOT > AND > OR > implicit group).",
     note=_BOUNDED)
 
@@ -141,7 +141,7 @@ REGISTRY["C10"] = dict(
          "boosts, term statistics, vectors and field lengths equal to the transposed analyzer output.",
     note=_BOUNDED)
 REGISTRY["C12"] = dict(
-    modules=["harness.c12_quality", "harness.c12_symbolic"], e2=True,
+    modules=["harness.c12_quality"], e2=True,
     technique="CrossHair symbolic query/threshold codes over real matchers and scorers (bounds at every position, skip_to_quality/replace never lose an entry above the threshold) + z3 reals through the real bm25()",
     text="For matchers compiled from real queries on real multi-block segments with the shipped scorers: block_quality >= current score, "
          "max_quality >= every remaining score, skip_to_quality(q)/replace(q) keep every entry scoring above q for q from a symbolic "
